@@ -87,4 +87,282 @@ theorem c19_exact (a b : Replica) (e : SOp) :
         · intro h; rw [h] at hin; simp at hin
         · rw [mem_selectLog]; exact ⟨hstore, rfl, rfl, by simp [inRange, hle, hlt]⟩
 
+/-- `BTreeMap` keys of the `logs` argument are distinct -/
+def ScopeOk (r : Replica) : Prop := (r.scope.map (·.1)).Nodup
+
+/-- What `heightOf` means: for a log in the replica's scope it is the largest stored sequence
+    number (`none` when nothing of the log is stored); a log outside the scope is not announced. -/
+theorem c19_height_spec (r : Replica) (hs : ScopeOk r) (a l : Nat) :
+    (InScope r a l → heightOf r a l = maxSeq r.store a l) ∧ (¬InScope r a l → heightOf r a l = none) := by
+  have hlk := lookup_haveOf_aux r.store r.scope a hs
+  constructor
+  · rintro ⟨logs, hmem, hl⟩
+    rw [lookup_scope_of_mem _ hs _ _ hmem] at hlk
+    simp only at hlk
+    unfold heightOf haveOf
+    rw [hlk]
+    cases hg : getHeights r.store a logs with
+    | none => rw [getHeights_none hg l hl]; rfl
+    | some m => simp only [Option.bind_some]; rw [lookup_getHeights hg]; simp [hl]
+  · intro hns
+    unfold heightOf haveOf
+    rw [hlk]
+    cases hsc : r.scope.lookup a with
+    | none => rfl
+    | some logs =>
+      have hmem := lookup_some_mem _ _ _ hsc
+      simp only
+      cases hg : getHeights r.store a logs with
+      | none => rfl
+      | some m =>
+        have hl : l ∉ logs := fun hl => hns ⟨logs, hmem, hl⟩
+        simp only [Option.bind_some]; rw [lookup_getHeights hg]; simp [hl]
+
+/-- **PreSync announces exactly what is sent**: number of operations and total bytes. -/
+theorem c19_metrics (a b : Replica) :
+    preSyncTotals a b = ((sendList a b).length, sumBytes (sendList a b)) := by
+  unfold preSyncTotals
+  rw [foldl_totals, sendList_eq_flat]
+  simp
+
+/-- **Nothing else**: every operation an `OperationReceived` event of `b` carries is stored by `a`. -/
+theorem c19_nothing_else (cap : Nat) (a b : Replica) (e : SOp) (h : e ∈ received cap a b) :
+    e ∈ a.store := by
+  have hsub : ∀ (buf : Dedup.Buf Nat) (l : List SOp), e ∈ dedupFilter buf l → e ∈ l := by
+    intro buf l
+    induction l generalizing buf with
+    | nil => simp [dedupFilter]
+    | cons x xs ih =>
+      simp only [dedupFilter]
+      split
+      · intro h
+        rcases List.mem_cons.mp h with h | h
+        · simp [h]
+        · exact List.mem_cons_of_mem _ (ih _ h)
+      · intro h; exact List.mem_cons_of_mem _ (ih _ h)
+  have h1 := hsub _ _ h
+  unfold sentOps at h1
+  split at h1
+  · exact ((c19_exact a b e).mp h1).1
+  · simp at h1
+
+/-- **Once and in log order**: the operations `a` sends are pairwise different, and two
+    operations of the same log appear in ascending sequence-number order. -/
+theorem c19_once_in_order (a b : Replica) (hs : ScopeOk a) (hv : ValidStore a.store) :
+    (sendList a b).Pairwise Before := by
+  unfold sendList
+  have hneeds : (needs a b).Pairwise (fun p q => p.1 ≠ q.1) := compare_keys _ _ (haveOf_keys a hs)
+  rw [List.pairwise_flatMap]
+  constructor
+  · intro ar har
+    obtain ⟨au, rs⟩ := ar
+    rw [List.pairwise_flatMap]
+    constructor
+    · intro lr _; exact selectLog_before a.store hv _ _ _
+    · -- ranges of one author are for pairwise different logs
+      have hkeys : rs.Pairwise (fun p q => p.1 ≠ q.1) := by
+        obtain ⟨m, hm, hc⟩ := (mem_compare _ _ _ _).mp har
+        obtain ⟨logs, _, hget⟩ := (mem_haveOf a _ _).mp hm
+        have hmk := getHeights_keys hget
+        rcases hc with ⟨_, rfl⟩ | ⟨rl, _, _, rfl, _⟩
+        · exact List.pairwise_map.mpr hmk
+        · exact needsOfAuthor_keys m rl hmk
+      refine hkeys.imp ?_
+      intro p q hpq x hx y hy
+      have hx' := (mem_selectLog _ _ _ _ x).mp hx
+      have hy' := (mem_selectLog _ _ _ _ y).mp hy
+      have hl : x.l ≠ y.l := by rw [hx'.2.2.1, hy'.2.2.1]; exact hpq
+      exact ⟨fun h => hl (by rw [h]), fun _ h => absurd h hl⟩
+  · refine hneeds.imp ?_
+    intro p q hpq x hx y hy
+    simp only [List.mem_flatMap] at hx hy
+    obtain ⟨lr, _, hx⟩ := hx
+    obtain ⟨lr', _, hy⟩ := hy
+    have hx' := (mem_selectLog _ _ _ _ x).mp hx
+    have hy' := (mem_selectLog _ _ _ _ y).mp hy
+    have ha : x.a ≠ y.a := by rw [hx'.2.1, hy'.2.1]; exact hpq
+    exact ⟨fun h => ha (by rw [h]), fun h _ => absurd h ha⟩
+
+/-- consequence: no operation is sent twice -/
+theorem c19_sent_nodup (a b : Replica) (hs : ScopeOk a) (hv : ValidStore a.store) :
+    (sendList a b).Nodup :=
+  List.nodup_iff_pairwise_ne.mpr ((c19_once_in_order a b hs hv).imp fun h => h.1)
+
+/-- the hash identifies the operation; every operation has a non-empty header -/
+def IdsOk (st : List SOp) : Prop :=
+  (∀ x ∈ st, ∀ y ∈ st, x.id = y.id → x = y) ∧ ∀ x ∈ st, 0 < x.bytes
+
+/-- **The receiver's events are exactly the send list**: with distinct hashes the
+    de-duplication buffer (any capacity) drops nothing, and `PreSync` (not `Done`) is sent
+    whenever there is something to send. -/
+theorem c19_received (cap : Nat) (a b : Replica) (hs : ScopeOk a) (hv : ValidStore a.store)
+    (hid : IdsOk a.store) : received cap a b = sendList a b := by
+  have hsent : sentOps a b = sendList a b := by
+    unfold sentOps
+    split
+    · rfl
+    · rename_i hz
+      rw [c19_metrics] at hz
+      simp only [gt_iff_lt, Nat.not_lt, Nat.le_zero_eq] at hz
+      cases hl : sendList a b with
+      | nil => rfl
+      | cons e es =>
+        have he : e ∈ a.store := ((c19_exact a b e).mp (by rw [hl]; simp)).1
+        have := hid.2 e he
+        rw [hl] at hz
+        simp only [sumBytes, List.map_cons, List.sum_cons] at hz
+        omega
+  unfold received
+  rw [hsent]
+  apply dedupFilter_fresh
+  · have hnd := List.nodup_iff_pairwise_ne.mp (c19_sent_nodup a b hs hv)
+    rw [List.nodup_iff_pairwise_ne, List.pairwise_map]
+    refine List.Pairwise.imp_of_mem ?_ hnd
+    intro x y hx hy hne hxy
+    exact hne (hid.1 x ((c19_exact a b x).mp hx).1 y ((c19_exact a b y).mp hy).1 hxy)
+  · intro e _; simp [Dedup.new]
+
+/-- larger of two optional heights -/
+def omax : Option Nat → Option Nat → Option Nat
+  | none, y => y
+  | x, none => x
+  | some x, some y => some (max x y)
+
+/-- Height of a shared log after one side ingested what the other sent: the larger of the two. -/
+theorem height_after (a b : Replica) (hsa : ScopeOk a) (au l : Nat)
+    (hA : InScope a au l) (hB : InScope b au l) (st : List SOp)
+    (hst : ∀ x, x ∈ st ↔ x ∈ a.store ∨ x ∈ sendList b a) :
+    maxSeq st au l = omax (maxSeq a.store au l) (maxSeq b.store au l) := by
+  have hhA : heightOf a au l = maxSeq a.store au l := (c19_height_spec a hsa au l).1 hA
+  -- members of the log in `st`
+  have hmem : ∀ x, x.a = au → x.l = l →
+      (x ∈ st ↔ x ∈ a.store ∨ (x ∈ b.store ∧ Above (maxSeq a.store au l) x.s)) := by
+    intro x hxa hxl
+    rw [hst x, c19_exact b a x, hxa, hxl, hhA]
+    constructor
+    · rintro (h | ⟨h1, _, h3⟩)
+      · exact Or.inl h
+      · exact Or.inr ⟨h1, h3⟩
+    · rintro (h | ⟨h1, h3⟩)
+      · exact Or.inl h
+      · exact Or.inr ⟨h1, hB, h3⟩
+  cases hb : maxSeq b.store au l with
+  | none =>
+    have hnb := (maxSeq_none _ _ _).mp hb
+    have : omax (maxSeq a.store au l) none = maxSeq a.store au l := by
+      cases maxSeq a.store au l <;> rfl
+    rw [this]
+    apply maxSeq_congr
+    intro x hxa hxl
+    rw [hmem x hxa hxl]
+    constructor
+    · rintro (h | ⟨h, _⟩)
+      · exact h
+      · exact absurd ⟨hxa, hxl⟩ (hnb x h)
+    · exact Or.inl
+  | some vb =>
+    obtain ⟨⟨eb, heb, heba, hebl, hebs⟩, hbmax⟩ := (maxSeq_some _ _ _ _).mp hb
+    cases ha : maxSeq a.store au l with
+    | none =>
+      have hna := (maxSeq_none _ _ _).mp ha
+      show maxSeq st au l = some vb
+      rw [maxSeq_some]
+      rw [ha] at hmem
+      refine ⟨⟨eb, (hmem eb heba hebl).mpr (Or.inr ⟨heb, trivial⟩), heba, hebl, hebs⟩, ?_⟩
+      intro x hx hxa hxl
+      rcases (hmem x hxa hxl).mp hx with h | ⟨h, _⟩
+      · exact absurd ⟨hxa, hxl⟩ (hna x h)
+      · exact hbmax x h hxa hxl
+    | some va =>
+      obtain ⟨⟨ea, hea, heaa, heal, heas⟩, hamax⟩ := (maxSeq_some _ _ _ _).mp ha
+      show maxSeq st au l = some (max va vb)
+      rw [maxSeq_some]
+      rw [ha] at hmem
+      by_cases hlt : va < vb
+      · have : max va vb = vb := by omega
+        rw [this]
+        refine ⟨⟨eb, (hmem eb heba hebl).mpr (Or.inr ⟨heb, by show va < eb.s; omega⟩), heba, hebl, hebs⟩, ?_⟩
+        intro x hx hxa hxl
+        rcases (hmem x hxa hxl).mp hx with h | ⟨h, _⟩
+        · have := hamax x h hxa hxl; omega
+        · exact hbmax x h hxa hxl
+      · have : max va vb = va := by omega
+        rw [this]
+        refine ⟨⟨ea, (hmem ea heaa heal).mpr (Or.inl hea), heaa, heal, heas⟩, ?_⟩
+        intro x hx hxa hxl
+        rcases (hmem x hxa hxl).mp hx with h | ⟨h, h2⟩
+        · exact hamax x h hxa hxl
+        · have := hbmax x h hxa hxl
+          have h2' : va < x.s := h2
+          omega
+
+theorem omax_comm (x y : Option Nat) : omax x y = omax y x := by
+  cases x <;> cases y <;> simp [omax, Nat.max_comm]
+
+/-- **Convergence**: after both sides ingest (`INSERT OR IGNORE` by hash) what they received,
+    they hold the same height for every log that is in the scope of both. -/
+theorem c19_converge (cap : Nat) (a b : Replica) (hsa : ScopeOk a) (hsb : ScopeOk b)
+    (hva : ValidStore a.store) (hvb : ValidStore b.store)
+    (hid : IdsOk (a.store ++ b.store)) (au l : Nat) (hA : InScope a au l) (hB : InScope b au l) :
+    maxSeq (ingest a.store (received cap b a)) au l = maxSeq (ingest b.store (received cap a b)) au l := by
+  have hida : IdsOk a.store :=
+    ⟨fun x hx y hy => hid.1 x (List.mem_append_left _ hx) y (List.mem_append_left _ hy),
+     fun x hx => hid.2 x (List.mem_append_left _ hx)⟩
+  have hidb : IdsOk b.store :=
+    ⟨fun x hx y hy => hid.1 x (List.mem_append_right _ hx) y (List.mem_append_right _ hy),
+     fun x hx => hid.2 x (List.mem_append_right _ hx)⟩
+  rw [c19_received cap b a hsb hvb hidb, c19_received cap a b hsa hva hida]
+  have hin : ∀ (p q : Replica) (x : SOp), x ∈ sendList p q → x ∈ p.store :=
+    fun p q x hx => ((c19_exact p q x).mp hx).1
+  have h1 := height_after a b hsa au l hA hB (ingest a.store (sendList b a)) (by
+    intro x
+    apply mem_ingest
+    intro p hp q hq
+    apply hid.1
+    · rcases hp with hp | hp
+      · exact List.mem_append_left _ hp
+      · exact List.mem_append_right _ (hin b a p hp)
+    · rcases hq with hq | hq
+      · exact List.mem_append_left _ hq
+      · exact List.mem_append_right _ (hin b a q hq))
+  have h2 := height_after b a hsb au l hB hA (ingest b.store (sendList a b)) (by
+    intro x
+    apply mem_ingest
+    intro p hp q hq
+    apply hid.1
+    · rcases hp with hp | hp
+      · exact List.mem_append_right _ hp
+      · exact List.mem_append_left _ (hin a b p hp)
+    · rcases hq with hq | hq
+      · exact List.mem_append_right _ hq
+      · exact List.mem_append_left _ (hin a b q hq))
+  rw [h1, h2, omax_comm]
+
+/-- the message-level transcript is a complete one in the sense of C20's grammar -/
+theorem c19_transcript_closed (a b : Replica) : Closed (transcript a b) := by
+  unfold transcript
+  simp only
+  split
+  · refine Or.inr ⟨haveOf a, (preSyncTotals a b).1, (preSyncTotals a b).2, (sendList a b).map toOp, ?_⟩
+    simp [List.map_map, Function.comp_def]
+  · exact Or.inl ⟨haveOf a, rfl⟩
+
+/-! ## Non-vacuity: two concrete replicas (each ahead on one log, one log only on `a`, one outside `b`'s scope) -/
+
+private def ra : Replica :=
+  { store := [⟨0, 0, 0, 1, 100⟩, ⟨0, 0, 1, 2, 110⟩, ⟨0, 0, 2, 3, 120⟩, ⟨1, 0, 0, 4, 100⟩, ⟨1, 5, 0, 6, 90⟩, ⟨2, 0, 3, 9, 80⟩],
+    scope := [(0, [0]), (1, [0, 5]), (2, [0])] }
+private def rb : Replica :=
+  { store := [⟨0, 0, 0, 1, 100⟩, ⟨1, 0, 0, 4, 100⟩, ⟨1, 0, 1, 5, 130⟩, ⟨2, 0, 3, 9, 80⟩, ⟨2, 0, 4, 10, 70⟩],
+    scope := [(0, [0]), (1, [0, 5])] }
+
+example : ScopeOk ra ∧ ScopeOk rb := by unfold ScopeOk; decide
+example : (sendList ra rb).map (·.id) = [2, 3, 6, 9] := by decide
+example : (sendList rb ra).map (·.id) = [5] := by decide
+example : (received 2 ra rb).map (·.id) = [2, 3, 6, 9] := by decide
+example : transcript rb ra = [Msg.have [(0, [(0, 0)]), (1, [(0, 1)])], Msg.preSync 1 130, Msg.op ⟨5, 130⟩, Msg.done] := by decide
+example : heightsAfter 2 ra rb = [(0, [(0, 2)]), (1, [(0, 1), (5, 0)]), (2, [(0, 3)])] := by decide
+example : heightsAfter 2 rb ra = [(0, [(0, 2)]), (1, [(0, 1), (5, 0)]), (2, [(0, 4)])] := by decide
+example : InScope ra 1 0 ∧ InScope rb 1 0 := ⟨⟨[0, 5], by decide, by decide⟩, ⟨[0, 5], by decide, by decide⟩⟩
+
 end P2.C19
